@@ -33,6 +33,33 @@ size_t vg_name_len;
    havocked by DFCC; vg_havoc() does it again), so a clause about element vg_k holds for every element. */
 size_t vg_k;
 
+/* Allocation failure as a prophecy.  vg_malloc_ok != 0 means "the next malloc call succeeds"; malloc consumes it
+   and draws a new nondeterministic value, so every call can still fail or succeed independently (same behaviours
+   as cbmc --malloc-may-fail --malloc-fail-null).  Because the outcome is readable in the PRE-state, contracts can
+   make their frees clauses conditional on it; CBMC's DFCC has no other way to tell a caller "nothing was freed on
+   this path" (was_freed cannot be assumed in replaced contracts in 6.11, see ext_header.c.spec).
+   A harness that replaces contracts mentioning vg_malloc_ok must use this stub too (or define VG_NO_MALLOC_STUB
+   and provide an equivalent one) and list vg_malloc_ok in the assigns clauses of functions that allocate. */
+int vg_malloc_ok;
+#ifndef VG_NO_MALLOC_STUB
+/* ASSUME: malloc(n) returns NULL or a fresh, suitably sized heap block distinct from every live object and has
+   no other effect; which of the two happens is nondeterministic (prophecy variable vg_malloc_ok), and requests
+   above CBMC's __CPROVER_max_malloc_size always fail. */
+void *malloc(size_t vg_n)
+{
+	_Bool vg_ok = vg_malloc_ok != 0;
+	void *vg_res;
+	vg_malloc_ok = nondet_bool() ? 1 : 0;
+	if (!vg_ok || vg_n > __CPROVER_max_malloc_size)
+		return (void *) 0;
+	vg_res = __CPROVER_allocate(vg_n, 0);
+	/* bookkeeping of CBMC's own malloc model (use-after-free and leak trackers; the new[] flag is never set in C) */
+	__CPROVER_deallocated = (vg_res == __CPROVER_deallocated) ? 0 : __CPROVER_deallocated;
+	__CPROVER_memory_leak = nondet_bool() ? vg_res : __CPROVER_memory_leak;
+	return vg_res;
+}
+#endif
+
 /* Mathematical little/big-endian values (sum of byte * 256^k), from the LHA format description;
    deliberately written with + and * instead of the code's | and <<. */
 #define VG_B(p, k)     ((uint64_t)((uint8_t *)(p))[k])
